@@ -50,7 +50,7 @@ impl Property for C06 {
     }
     fn strategy(&self, _tier: Tier) -> BoxedStrategy<Case> {
         (
-            prop_oneof![3 => robot_sane(DofChoice::Five), 3 => robot_sane(DofChoice::Six), 1 => robot_negative(DofChoice::Both)],
+            prop_oneof![6 => robot_sane(DofChoice::Five), 6 => robot_sane(DofChoice::Six), 2 => robot_negative(DofChoice::Both), 1 => robot_degenerate(DofChoice::Both)],
             prop_oneof![
                 10 => joints_mixed().prop_map(|j| PoseGen::Fk { j }),
                 1 => (joints_uniform(), -1i8..=1, small_delta()).prop_map(|(j, k, delta)| PoseGen::FkWrist { j, k, delta }),
@@ -112,7 +112,14 @@ impl Property for C06 {
             ensure!(da <= tol_a, "the tool axis coincides with the requested one (1 urad)", "{}: axis angle = {:e} tol {:e}; answer {:?} [stack {}]", what, da, tol_a, s, stack_name(&c.layers));
         }
         // originating J1..J5 among the answers (outside the singularity margins)
-        if let Some(j) = src {
+        // (completeness is a statement about arms of ordinary proportions: with link lengths of 1e-9 m next to offsets of 1e3 m the
+        // closed form cannot resolve the arm angles in f64; such degenerate robots only take part in the soundness clauses above)
+        let (_, kk) = r.psi3_k();
+        let well_scaled = r.c2.abs() > 1e-3 * r.reach() && kk > 1e-3 * r.reach();
+        if !well_scaled && src.is_some() {
+            ctx.exclude("completeness not asserted for robots whose arm links are below 1e-3 of the overall size");
+        }
+        if let (Some(j), true) = (src, well_scaled) {
             match margins_ok(r, &j) {
                 Ok(()) => {
                     let found = sols.iter().any(|s| (0..5).all(|t| circ_dist(s[t], j[t]) <= 1e-6));
